@@ -188,7 +188,12 @@ func cmdReaders(args []string) {
 		twin := proto.Message(d)
 		want := map[string]string{}
 		computeWant := func() {
-			seqm := proto.Clone(shared)
+			// (an independent instance with the same value: cloning the shared message would be a
+			// sequential first use of it, and first uses are exactly what may write)
+			var seqm proto.Message = mt.New().Interface()
+			if b, err := proto.Marshal(d); err != nil || proto.Unmarshal(b, seqm) != nil {
+				seqm = proto.Clone(shared)
+			}
 			for _, k := range names {
 				want[k] = readOps[k](seqm, twin)
 			}
